@@ -35,8 +35,15 @@ def gen_union(seed, k):
     # the union's own name may coincide with a name the impls introduce (the hasher parameter `H`, ...)
     name = rng.choice(["Un", "Un", "Un", "H", "HH", "Hasher", "T", "S", "Formatter", "D"])
     td = U.random_union(rng, traits=traits, generic=rng.random() < 0.25, max_fields=3, name=name)
-    size, align = U.size_align(td)
     fs = td.variants[0].fields
+    if not td.params and rng.random() < 0.07:
+        # a union without a single byte: "the byte slice of the value" is the empty slice, printed / hashed as such
+        zst = [("()", 1), ("[u32; 0]", 4), ("::core::marker::PhantomData<u8>", 1), ("[u8; 0]", 1), ("[(); 3]", 1)]
+        rng.shuffle(zst)
+        keep = [f.name for f in fs][:rng.randint(1, 2)]
+        fs[:] = [S.Field(n, U.ukind(ty, 0, al), i) for i, (n, (ty, al)) in enumerate(zip(keep, zst))]
+        td.notes["zst"] = True
+    size, align = U.size_align(td)
     raw = S.Field("raw", U.ukind("[u8; %d]" % size, size, 1), len(fs))
     fs.append(raw)
     td.notes["size"] = size
@@ -190,8 +197,9 @@ def expected_dbg(name, p):
     return "%s(%s)" % (name, inner) if name is not None else inner
 
 
-def expected_hash(p):
-    return "usize(%d);b(%s);" % (len(p), "".join("%02x" % b for b in p))
+def expected_hash(p, which="native"):
+    # (under Miri the recording hasher overrides the unstable `write_length_prefix` hook: a slice announces its length there)
+    return "%s(%d);b(%s);" % ("len" if which == "miri" else "usize", len(p), "".join("%02x" % b for b in p))
 
 
 def strip_unsafe(td, rng):
@@ -365,8 +373,8 @@ def main(tier, seed, scale=1.0):
                         msg = ("Debug output is not the %d bytes of the value under the effective name\nobserved: %r\nexpected: %r\n"
                                "pretty observed: %r\npretty expected: %r" % (len(pats[i]), got, expected_dbg(name, pats[i]), gotp, refp))
                 elif op == "hash":
-                    if res[0] != res[1] or res[0] != expected_hash(pats[i]):
-                        msg = "Hash input is not the byte slice of the value\nobserved: %s\nexpected: %s" % (res[0], expected_hash(pats[i]))
+                    if res[0] != res[1] or res[0] != expected_hash(pats[i], which):
+                        msg = "Hash input is not the byte slice of the value\nobserved: %s\nexpected: %s" % (res[0], expected_hash(pats[i], which))
                 elif op == "clone":
                     if res[0] != "1":
                         msg = "clone() is not a bitwise copy"
